@@ -30,6 +30,18 @@ def run(ctx):
     pool = tircheck.Pool(ctx)
     pool.add(table)
     ntable = len(table)
+    # bodies with three return points: the return type is the ONE common type of all of them
+    names = ["int", "uint", "double", "bool", "string", "vobj", "vsub", "strlist", "intlist", "mode", "cint0", "cint", "cnull", "cempty", "cstring", "cdouble"]
+    triples = [(x, y, z) for x in names for y in names for z in names]
+    if ctx.tier != "thorough":
+        rng.shuffle(triples)
+        triples = triples[:700]
+    ret3 = []
+    for (x, y, z) in triples:
+        R = tircheck.REPS
+        p3 = ("binding_block", [("switch", tircheck.DYN["int"], [(("int", 1), [("return", R[x])]), (("int", 2), [("return", R[y])])], (2, [("return", R[z])]))])
+        ret3.append((len(pool.programs), (x, y, z)))
+        pool.add([(p3, "returns3")])
     if not ctx.replay:
         pool.add_generated(6000 if ctx.tier == "thorough" else 800, mutate_every=2, mutate=0.08, max_depth=4)
     pool.run()
@@ -72,5 +84,23 @@ def run(ctx):
         ctx.violation("%s program is %s: %s" % ("ill-typed" if accepted else "well-typed", "accepted" if accepted else "rejected (%s)" % [d["msg"] for d in pool.impl[i]["diags"]][:1], pool.sources[i]),
                       {"case": {"program": pool.programs[i][0]}, "qml": pool.sources[i], "impl_output": {"accepted": accepted, "diags": [d["msg"] for d in pool.impl[i]["diags"]]},
                        "oracle_output": "spec_verdict = %s" % v, "theorem_or_correspondence": "S: spec/TypingCase.v verdict vs tir::build"})
+    # S: the return type of a body with three return points exists exactly when the three operands have ONE common type
+    rterms = []
+    for (i, (x, y, z)) in ret3:
+        if not isinstance(pool.impl[i], dict) or not pool.impl[i].get("ok"):
+            continue
+        ops = [prog.coq_expr(tircheck.REPS[n]) for n in (x, y, z)]
+        rterms.append(("(%s, %s, %s)" % tuple(ops), "%d%%Z" % (1 if pool.impl[i].get("ret") is not None else 0), i))
+    rfun = ("(fun t : expr * expr * expr => let '(x, y, z) := t in match operand_of E0 x, operand_of E0 y, operand_of E0 z with "
+            "| Some a, Some b, Some c => match common E0 (td a) (td b) with Some d => (match common E0 d (td c) with Some _ => 1 | None => 0 end) | None => 0 end "
+            "| _, _, _ => 2 end)%Z")
+    rb = C.coq_eval_mismatches("c05r", hdr, [(a, b) for a, b, _ in rterms], "(fun v e => Z.eqb v 2 || Z.eqb v e)", rfun, "(expr * expr * expr) * Z", shard_size=200, scope="Z_scope")
+    ctx.coverage["return_type_family"] = len(rterms)
+    ctx.coverage["return_type_disagreements"] = len(rb)
+    for j in rb[:5]:
+        i = rterms[j][2]
+        got = pool.impl[i].get("ret")
+        ctx.violation("a body whose return points have %s common type is given %s: %s" % ("no" if got is not None else "a", "the return type %s" % json.dumps(got) if got is not None else "no return type", pool.sources[i]),
+                      {"case": {"program": pool.programs[i][0]}, "qml": pool.sources[i], "impl_output": {"ret": got}, "theorem_or_correspondence": "S: spec/Typing.v common (C05_common_type) vs resolve_return_type"})
     if bad and not ctx.violations:
         ctx.broke("K", "tir::build* vs model", "model and implementation differ on %d programs; first:\n%s" % (len(bad), pool.describe_mismatch(bad[0])))
